@@ -177,9 +177,18 @@ def run_output_vcf(case):
     orig_conv, orig_np = sg._convert_haplotype, sg.np
     rp = SD._RandProxy(np.random)
 
-    def conv(haplotype, chrom, *a, **k):
-        r = orig_conv(haplotype, chrom, *a, **k)
-        rec.append({"chrom": cnum(chrom), "ends": [int(x) for x in r[0]], "pops": [int(x) for x in r[1]], "names": [str(x) for x in r[2]], "inds": [int(x) for x in r[3]], "strands": [int(x) for x in r[4]], "nlog": len(rp.log)})
+    def conv(haplotype, chrom, pop_dict, pop_sample, sample_dict, haps_used, no_replacement):
+        # inputs of the call, as the function sees them (lists of the population -> samples map in their current order)
+        labels = sorted(pop_dict)
+        pop_samples = [[]] * (max(labels) + 1 if labels else 0)
+        pop_samples = [[int(sample_dict[x]) for x in pop_sample.get(pop_dict[l], [])] if l in pop_dict else [] for l in range(max(labels) + 1)] if labels else []
+        hap_in = [SD.seg_t(s)[:3] + [0] for s in haplotype]
+        r = orig_conv(haplotype, chrom, pop_dict, pop_sample, sample_dict, haps_used, no_replacement)
+        choices = []
+        for lab, ind in zip(r[1], r[3]):
+            lst = pop_samples[int(lab)] if int(lab) < len(pop_samples) else []
+            choices.append(lst.index(int(ind)) if int(ind) in lst else len(lst))  # len(lst): drawn outside its population
+        rec.append({"chrom": cnum(chrom), "ends": [int(x) for x in r[0]], "pops": [int(x) for x in r[1]], "names": [str(x) for x in r[2]], "inds": [int(x) for x in r[3]], "strands": [int(x) for x in r[4]], "nlog": len(rp.log), "hap_in": hap_in, "pop_samples": pop_samples, "choices": choices})
         return r
 
     sg._convert_haplotype, sg.np = conv, SD._NPProxy(rp)
@@ -195,6 +204,8 @@ def run_output_vcf(case):
             r["strands"] = [int(x) for x in np.atleast_1d(nxt[0][3])]
     obs = read_output(out, case)
     obs["tape"] = [{k: v for k, v in r.items() if k != "nlog"} for r in rec]
+    # what _convert_haplotype returned per (haplotype, chromosome): block ends and per block [reference sample, label]
+    obs["conv"] = [[r["ends"], [[i, p] for i, p in zip(r["inds"], r["pops"])]] for r in rec]
     return obs
 
 
@@ -278,10 +289,23 @@ def model_req2(case):
             hb.append({"chrom": t["chrom"], "ends": t["ends"], "srcs": [[i, s, p] for i, s, p in zip(t["inds"], t["strands"], t["pops"])]})
         haps.append(hb)
     pre = len(case["prefix"])
-    return {"op": "outputVcf", "chroms": [cnum(c) for c in case["chroms"]], "vars": [[cnum(v[1][pre:]), v[2]] for v in kv], "haps": haps}
+    reqs = [{"op": "outputVcf", "chroms": [cnum(c) for c in case["chroms"]], "vars": [[cnum(v[1][pre:]), v[2]] for v in kv], "haps": haps}]
+    # _convert_haplotype itself: from the haplotype it was given, the population -> samples map and the recorded draws
+    reqs += [{"op": "convertHap", "hap": t["hap_in"], "chrom": t["chrom"], "popSamples": t["pop_samples"], "choices": t["choices"], "strands": [0] * len(t["choices"])} for t in tape]
+    return {"op": "batch", "reqs": reqs}
 
 
 def model_obs(case, resp):
+    if "resps" not in resp or not resp["resps"]:
+        return {"gts": None}
+    conv = [[r["ends"], [[s[0], s[2]] for s in r["srcs"]]] for r in resp["resps"][1:]]
+    resp = resp["resps"][0]
+    out = _model_obs1(case, resp)
+    out["conv"] = conv
+    return out
+
+
+def _model_obs1(case, resp):
     if "haps" not in resp:
         return {"gts": None}
     hs = resp["haps"]
@@ -301,6 +325,8 @@ def equal(a, b):
     if a["gts"] != b["gts"]:
         return False
     if a.get("pop") is not None and a["pop"] != b["pops"]:
+        return False
+    if a.get("conv") != b.get("conv"):
         return False
     return True
 
@@ -403,11 +429,11 @@ def describe(case, obs):
 CHECK = Check(
     id="C03",
     title="Simulated genotypes agree with the breakpoints and the reference panel",
-    theorems=["C03.assign_eq_firstGE", "C03.cell_from_panel", "C03.block_single_source"],
+    theorems=["C03.assign_eq_firstGE", "C03.cell_from_panel", "C03.block_single_source", "C03.source_matches_breakpoints", "C03.simulated_blocks_cover"],
     sections=[
         Section(
             name="output_vcf",
-            theorems=["C03.assign_eq_firstGE", "C03.cell_from_panel", "C03.block_single_source"],
+            theorems=["C03.assign_eq_firstGE", "C03.cell_from_panel", "C03.block_single_source", "C03.source_matches_breakpoints", "C03.simulated_blocks_cover"],
             gen=gen,
             impl=impl_wrap,
             model_req=model_req2,
@@ -418,11 +444,11 @@ CHECK = Check(
             setup=setup,
             teardown=teardown,
             nontrivial=lambda c, o: C.jdump(c) if isinstance(o, dict) and "gts" in o and len(o["gts"]) > 1 else None,
-            rule="hand-built breakpoint sets (1-3 simulated samples, 1-3 chromosomes incl. X, 1-4 blocks per chromosome with ends on a grid, closed by the sentinel) over identifiable panels (reference haplotype (i,k) carries the unique allele index (2i+k+j) mod 2n at the j-th multi-allelic variant, so every output genotype identifies its source haplotype and the reference column it was read from), variants on block ends, ends+1, position 1 and far beyond the map, with/without chr prefix, panels holding more chromosomes than requested, samples of unused populations, optional region, all four POP/SAMPLE flag combinations, with and without replacement, VCF.gz or PGEN input, VCF / VCF.gz / BCF / PGEN output read back with pysam / pgenlib; the recorded per-block choices are replayed into the Lean loop model and the whole genotype (and POP) matrix is compared",
+            rule="hand-built breakpoint sets (1-3 simulated samples, 1-3 chromosomes incl. X, 1-4 blocks per chromosome with ends on a grid, closed by the sentinel) over identifiable panels (reference haplotype (i,k) carries the unique allele index (2i+k+j) mod 2n at the j-th multi-allelic variant, so every output genotype identifies its source haplotype and the reference column it was read from), variants on block ends, ends+1, position 1 and far beyond the map, with/without chr prefix, panels holding more chromosomes than requested, samples of unused populations, optional region, all four POP/SAMPLE flag combinations, with and without replacement, VCF.gz or PGEN input, VCF / VCF.gz / BCF / PGEN output read back with pysam / pgenlib; the recorded per-block choices are replayed into the Lean loop model and the whole genotype (and POP) matrix is compared; every _convert_haplotype call is also replayed from its inputs (haplotype, population -> samples map, recorded draw) into Convert.convert and its block ends, labels and chosen reference samples compared",
         ),
         Section(
             name="simulated_breakpoints",
-            theorems=["C03.assign_eq_firstGE", "C03.cell_from_panel", "C03.block_single_source"],
+            theorems=["C03.assign_eq_firstGE", "C03.cell_from_panel", "C03.block_single_source", "C03.source_matches_breakpoints", "C03.simulated_blocks_cover"],
             gen=gen_sim,
             impl=impl_wrap,
             model_req=model_req2,
